@@ -319,7 +319,117 @@ def float_buffers(ctx, rule="R04.7"):
     ctx.floor(rule, "`*_like` allocations in the model formulas", n, 12)
 
 
+def radial_cdf_ppf(ctx, rule="R04.9"):
+    """Where a model offers a radial spectral cdf (and ppf) in closed form: (a) d/dr cdf(r) equals the radial pdf = surface factor(dim, r)
+    times the spectral density, and (b) cdf(ppf(u)) reduces to u - as formulas, for each dimension branch `self.dim == d`, in the
+    power / exp / log normal form of E11 DIFF extended by arctan / tan / erf / erfinv / Gamma at half-integers."""
+    import re as _re
+    from .. import diffalg as DA
+    from ..small import UnrollError, return_cases
+
+    prog = ctx.prog
+    cm = prog.cls(BASE, "CovModel")
+    rf = prog.func("covmodel/tools.py", "rad_fac")
+    try:
+        rf_cases = return_cases(rf)
+    except UnrollError as e:
+        raise AnalysisError("rad_fac is no longer a decision table: %s" % e)
+    n = 0
+    for ci in prog.subclasses(cm):
+        cdf, ppf, dens = ci.methods.get("spectral_rad_cdf"), ci.methods.get("spectral_rad_ppf"), ci.methods.get("spectral_density")
+        if cdf is None or dens is None:
+            continue
+        site = "%s::%s" % (ci.module.relpath, ci.name)
+        pr = cdf.args.args[1].arg
+        pk = dens.args.args[1].arg
+        try:
+            c_cases = return_cases(cdf, opaque=(pr,))
+            d_cases = return_cases(dens, opaque=(pk,))
+            p_cases = return_cases(ppf, opaque=(ppf.args.args[1].arg,)) if ppf is not None else []
+        except UnrollError as e:
+            ctx.undecided(rule, site, "radial functions are not decision tables: %s" % e)
+            continue
+
+        def dim_of(conds):
+            ds = [int(m.group(1)) for c in conds for m in [_re.fullmatch(r"(?:self\.)?dim == (\d+)", c)] if m]
+            return ds[0] if len(ds) == 1 else None
+
+        for conds, txt in c_cases:
+            d = dim_of(conds)
+            if d is None or txt == "None":
+                continue
+            sub = {"self.dim": DA.num(d), "dim": DA.num(d)}
+            try:
+                DA.set_domain(0, None)  # radii / wave numbers are positive
+                t_cdf = DA.from_ast(ast.parse(txt, mode="eval").body, {pr}, 1, subst=sub)
+                dens_txt = [t for c_, t in d_cases if not any(_re.fullmatch(r"(?:self\.)?dim == \d+", x) and x != "self.dim == %d" % d for x in c_)]
+                fac_txt = [t for c_, t in rf_cases if "dim == %d" % d in c_]
+                if len(dens_txt) != 1 or len(fac_txt) != 1:
+                    ctx.undecided(rule, site, "no unique density / surface factor branch for dim %d" % d)
+                    continue
+                t_den = DA.from_ast(ast.parse(dens_txt[0], mode="eval").body, {pk}, 1, subst=sub)
+                t_fac = DA.from_ast(ast.parse(fac_txt[0], mode="eval").body, {"r"}, 1, subst=sub)
+                lhs = DA.canon(DA.diff(t_cdf))
+                rhs = DA.canon(DA.mul(t_fac, t_den))
+            except DA.DiffError as ex:
+                ctx.undecided(rule, site, "dim %d: formula outside the algebra: %s" % (d, ex))
+                continue
+            n += 1
+            ctx.check(DA.same(lhs, rhs), rule, site, "dim %d: d/dr cdf = %s ; surface factor * density = %s" % (d, DA.vtext(lhs)[:90], DA.vtext(rhs)[:90]), "cdf-pdf:%d" % d)
+            for pconds, ptxt in p_cases:
+                if dim_of(pconds) != d or ptxt == "None":
+                    continue
+                pu = ppf.args.args[1].arg
+                try:
+                    DA.set_domain(0, 1)  # probabilities
+                    t_ppf = DA.from_ast(ast.parse(ptxt, mode="eval").body, {pu}, 1, subst=sub)
+                    comp = DA.canon(DA.substitute(t_cdf, "x", t_ppf))
+                except DA.DiffError as ex:
+                    ctx.undecided(rule, site, "dim %d: ppf outside the algebra: %s" % (d, ex))
+                    continue
+                n += 1
+                ctx.check(DA.same(comp, DA.canon(DA.sym("x"))), rule, site, "dim %d: cdf(ppf(u)) = %s (must be u)" % (d, DA.vtext(comp).replace("x", "u")[:90]), "cdf-ppf:%d" % d)
+    ctx.floor(rule, "closed-form radial cdf / ppf branches compared", n, 8)
+
+
+DATA_PARAMS = ("r", "k", "h", "u", "x")
+
+
+def limit_guards(ctx, rule="R04.10"):
+    """A guard that switches to a limit value where the data reach a special point (`np.isclose(k, 0)`: the formula divides by k) compares
+    the DATA with 0, so that only numpy's absolute tolerance 1e-8 applies.  `np.isclose(u, 1)` has a relative band as well (|u - 1| <= 1e-8
+    + 1e-5): every u > 0.99999 would take the limit value - for a quantile function that is an infinite wave number in about 1% of all
+    seeded fields (the first version of repair #24 did exactly that).  Comparisons of PARAMETERS (lmbda, nu, len_low) are not concerned."""
+    from ..small import _sym_subst, sym_eval
+
+    n = 0
+    for mm, q, fn, ci, kind in ctx.prog.all_functions():
+        if mm.relpath not in ("covmodel/models.py", "covmodel/tpl_models.py") or ci is None:
+            continue
+        data = [a.arg for a in fn.args.args[1:] if a.arg in DATA_PARAMS]
+        if not data:
+            continue
+        for st in [x for x in ast.walk(fn) if isinstance(x, ast.stmt)]:
+            for c in [x for x in ast.walk(st) if isinstance(x, ast.Call) and ast.unparse(x.func) == "np.isclose" and len(x.args) >= 2]:
+                if any(c in ast.walk(sub) for blk in ("body", "orelse", "finalbody") for sub in (getattr(st, blk, None) or []) if isinstance(sub, ast.stmt)):
+                    continue
+                env = sym_eval(fn.body, stop=st, opaque=tuple(data), element_stores_kill=False)
+                a0 = _sym_subst(c.args[0], env)
+                if not any(isinstance(x, ast.Name) and x.id in data for x in ast.walk(a0)):
+                    continue
+                n += 1
+                try:
+                    zero = fold(c.args[1], {}) == 0
+                except (FoldError, TypeError):
+                    zero = False
+                ctx.check(zero, rule, "%s::%s" % (mm.relpath, q), "limit guard %s compares data with %s (must be 0: absolute tolerance only)" % (ast.unparse(c)[:50], ast.unparse(c.args[1])),
+                          "isclose-data:%s" % ast.unparse(c.args[1]))
+    ctx.floor(rule, "np.isclose guards on data in the model formulas", n, 4)
+
+
 def run(ctx):
+    limit_guards(ctx)
+    radial_cdf_ppf(ctx)
     float_buffers(ctx)
     from .C03 import dimension_attribute
 
